@@ -6,3 +6,4 @@ pub mod mon;
 pub mod ops_cli;
 pub mod ops_api;
 pub mod canon;
+pub mod fuzzsup;
